@@ -9,7 +9,7 @@ from .. import sigs
 
 MANIFEST = dict(
     technique="Lean 4 proof: DFT modulation theorem on ZMod N (Mathlib), fftshift index lemma, zeroed-bin rule over Q, broadcasting model + differential correspondence of transforms.freq_shift (per-element zeroed bins of the output spectrum, moved content against a complex128 oracle, metadata)",
-    level_text="proved: mixing moves bin k-b to k for every N and whole-bin b, index j of the fftshifted spectrum is signed bin j-floor(N/2), index j is zeroed iff j-b lies outside the band, |b|>=N zeroes every bin; tied: for every broadcastable shift shape the output's spectrum is compared per element — exact-zero bins where the model says so, moved content elsewhere — plus dtype/class/labels/start/rate unchanged",
+    level_text="the zero-fill loop body and the phase factor of freq_shift, translated symbolically from the source on every run, are the model's (C04_source_loop); proved: mixing moves bin k-b to k for every N and whole-bin b, index j of the fftshifted spectrum is signed bin j-floor(N/2), index j is zeroed iff j-b lies outside the band, |b|>=N zeroes every bin; tied: for every broadcastable shift shape the output's spectrum is compared per element — exact-zero bins where the model says so, moved content elsewhere — plus dtype/class/labels/start/rate unchanged",
     level_note="PARTIAL on numerics: FFT and the mixing phasor (cast to the signal dtype) are floating point; validated against a complex128 oracle at 1e-5 (complex64) / 1e-10 (complex128) relative, not proved. Trusted: Lean kernel + Mathlib, PbModel/Shift.lean tied by correspondence; the doubles ft*N the code derives are reproduced with the same astropy expression and given to the model exactly",
 )
 
